@@ -165,8 +165,46 @@ def host_body(style, cols, rows, row, text, speed, loop, ticks):
     return body
 
 
+def host_two_displays(style_a, style_b, first_b_created_late):
+    """Two host displays alive at once (different geometries), an animation on each, ticked alternately at symbolic
+    times: each display only ever changes its own animation's row, tick never raises, a looping animation on one
+    display survives whatever happens to the other (including its creation and begin())."""
+    def body(hw):
+        D = hw.load("Reduino.Displays")
+        big = D.LCD(i2c_addr=0x27, cols=20, rows=4)
+        for r in range(4):
+            big.line(r, "xyzw"[r] * 20)
+        big.animate(style_a, 3, "abcdef", speed_ms=0, loop=True)
+        if first_b_created_late:
+            big.tick(pysym.sym_int("t_pre", 1, 1 << 20))
+        small = D.LCD(rs=12, en=11, d4=5, d5=4, d6=3, d7=2, cols=8, rows=1)
+        small.line(0, "q" * 8)
+        small.animate(style_b, 0, "hi", speed_ms=0, loop=False)
+        claim("each display keeps its own animation table", len(big.animations) == 1 and len(small.animations) == 1)
+        big_others = {r: big.buffer[r] for r in range(3)}
+        t = pysym.sym_int("t0", 1, 1 << 20)
+        for i in range(4):
+            t = t + pysym.sym_int(f"d{i}", 0, 1 << 16)
+            for name, lcd in (("small", small), ("big", big)):
+                try:
+                    lcd.tick(t)
+                except Exception as e:     # noqa: BLE001 - the claim is that tick never raises
+                    claim(f"tick never raises ({name}: {type(e).__name__}: {e})", False)
+                    return
+            for r, v in big_others.items():
+                claim("big display: rows without an animation untouched", big.buffer[r] == v)
+            claim("big display: every row keeps the display width", all(len(x) == 20 for x in big.buffer))
+            claim("small display: row keeps the display width", len(small.buffer) == 1 and len(small.buffer[0]) == 8)
+        claim("the looping animation of the big display is still active", all(a.active for a in big.animations.values())
+              and len(big.animations) == 1)
+    return body
+
+
 def cases(tier):
     items = []
+    for sa, sb in (("bounce", "typewriter"), ("scroll", "blink"), ("blink", "scroll"), ("typewriter", "bounce")):
+        for late in (False, True):
+            items.append(("host2", f"host/two_displays/{sa}+{sb}/second_created_{'late' if late else 'early'}", sa, sb, late))
     geoms = [(6, 2, 1)] if tier == "quick" else [(6, 2, 1), (4, 1, 0), (8, 4, 2)]
     for cols, rows, row in geoms:
         texts = {"empty": "", "short": "ab", "fit": "abcdefgh"[:cols], "long": "abcdefghijkl"[:cols + 3]}
@@ -260,6 +298,9 @@ def _work(item):
                       describe="rate limit over symbolic tick times").run()
     if kind == "twoanims":
         return FwSpec(item[1], item[2], two_analyse, passes=6, max_block_visits=3000, max_paths=300).run()
+    if kind == "host2":
+        _, oid, sa, sb, late = item
+        return run_host_obligation(oid, host_two_displays(sa, sb, late), max_paths=600, max_decisions=400, budget_s=200)
     if kind == "host":
         _, oid, style, cols, rows, row, text, speed, loop, ticks = item
         return run_host_obligation(oid, host_body(style, cols, rows, row, text, speed, loop, ticks), max_paths=600,
